@@ -89,7 +89,8 @@ pub fn run_one(args: &ShardArgs, rng: &mut Rng, rep: &mut Report, k: usize) {
 	let workdir = workdir.canonicalize().unwrap();
 
 	let extra = gen_args(rng);
-	let wrap = rng.below(3); // 0 plain, 1 grouped, 2 session
+	let wrap = rng.below(4).min(2); // 0 plain, 1 grouped, 2 session (half of those with `grouped` set as well: the session wins)
+	let both = wrap == 2 && rng.chance(1, 2);
 	let shell_mode = k % 2 == 1;
 	let hook_env = rng.chance(2, 3);
 	let hook_cwd = rng.chance(1, 2);
@@ -118,7 +119,7 @@ pub fn run_one(args: &ShardArgs, rng: &mut Rng, rep: &mut Report, k: usize) {
 		exp.extend(extra.iter().map(|s| s.as_bytes().to_vec()));
 		(Program::Exec { prog: vchild.clone(), args: extra.clone() }, exp)
 	};
-	let command = Arc::new(Command { program, options: SpawnOptions { grouped: wrap == 1, session: wrap == 2, ..Default::default() } });
+	let command = Arc::new(Command { program, options: SpawnOptions { grouped: wrap == 1 || both, session: wrap == 2, ..Default::default() } });
 
 	// every path that spawns must honour the configuration and the hook: 0 = start only, 1 = restart,
 	// 2 = try_restart, 3 = try_restart_with_signal (old process exits in the grace period), 4 = same, forced at expiry
@@ -203,7 +204,7 @@ pub fn run_one(args: &ShardArgs, rng: &mut Rng, rep: &mut Report, k: usize) {
 	}
 	for (di, d) in dumps.iter().enumerate() {
 	let path_name = if di == 0 { "start" } else { ["", "restart", "try_restart", "graceful-continuation", "grace-expiry"][respawn] };
-	let wit = || json!({"shell_mode": shell_mode, "wrap": (["plain", "grouped", "session"][wrap as usize]), "expected_argv": show(&expected_argv), "observed_argv": show(&d.argv)});
+	let wit = || json!({"shell_mode": shell_mode, "wrap": (["plain", "grouped", "session"][wrap as usize]), "grouped_also_set": both, "expected_argv": show(&expected_argv), "observed_argv": show(&d.argv)});
 	if d.argv != expected_argv {
 		let class = if d.argv.len() != expected_argv.len() { "count" } else { "content" };
 		rep.violation(
